@@ -34,6 +34,11 @@ def serVarInt (i : Nat) : Res Bytes :=
   else if i ≤ 0xffffffff then (packU 4 i).map (0xfe :: ·)
   else (packU 8 i).map (0xff :: ·)
 
+/-- `VarIntSerializer.stream_serialize` on an arbitrary Python int: `if i < 0: raise ValueError`, then
+    the four forms; from 2^64 on `struct.pack('<Q')` raises `struct.error` (inside `serVarInt`) -/
+def serVarIntInt (i : Int) : Res Bytes :=
+  if i < 0 then .error .valueerr else serVarInt i.toNat
+
 /-- `BytesSerializer.stream_serialize` -/
 def serBytes (b : Bytes) : Res Bytes := do
   let l ← serVarInt b.length
